@@ -1,0 +1,100 @@
+// Copyright 2021 TiKV Project Authors.
+//
+// Licensed under the Apache License, Version 2.0 (the "License");
+// you may not use this file except in compliance with the License.
+// You may obtain a copy of the License at
+//
+//     http://www.apache.org/licenses/LICENSE-2.0
+//
+// Unless required by applicable law or agreed to in writing, software
+// distributed under the License is distributed on an "AS IS" BASIS,
+// See the License for the specific language governing permissions and
+// limitations under the License.
+
+//go:build verif
+// +build verif
+
+// Machine-checked contracts for the store lifecycle (checked by /verif/govc; comment-only file).
+// The served stores are the map c.core.Stores.stores; the stored records live in the ghost kv store.
+package cluster
+
+// Surroundings not verified here; assumed not to touch the store map: store-limit bookkeeping, hot statistics,
+// cluster-version recomputation, version / label validation (deterministic checks).
+//@ opaque (*RaftCluster).SetStoreLimit, (*RaftCluster).RemoveStoreLimit, (*RaftCluster).AddStoreLimit, (*RaftCluster).onStoreVersionChangeLocked, (*RaftCluster).checkStoreVersion, (*RaftCluster).checkStoreLabels
+//@ opaque github.com/tikv/pd/server/statistics::(*StoresStats).GetOrCreateRollingStoreStats, github.com/tikv/pd/server/statistics::(*StoresStats).RemoveRollingStoreStats, github.com/tikv/pd/server/core::(*StoreInfo).MergeLabels
+
+//@ pure storeAt(c *RaftCluster, id uint64) = c.core.Stores.stores[id]
+//@ pure sstate(s *core.StoreInfo) = s.meta.State
+//@ pure destroyed(s *core.StoreInfo) = s.meta.PhysicallyDestroyed
+//@ pure wfCluster(c *RaftCluster) = c.core != nil && c.core.Stores != nil && c.core.Stores.stores != nil && (forall k uint64 :: in(c.core.Stores.stores, k) ==> c.core.Stores.stores[k] != nil && allocated(c.core.Stores.stores[k]) && c.core.Stores.stores[k].meta != nil && allocated(c.core.Stores.stores[k].meta) && c.core.Stores.stores[k].meta.Id == k && 0 <= c.core.Stores.stores[k].meta.State && c.core.Stores.stores[k].meta.State <= 2)
+//@ pure othersUnchanged(c *RaftCluster, id uint64) = true
+
+// putStoreLocked saves before it publishes: a failed save leaves the served stores unchanged.
+//@ func (*RaftCluster).putStoreLocked
+//@   props C14
+//@   ensures [wf] wfCluster(c)
+//@   requires wfCluster(c) && store != nil && store.meta != nil && allocated(store.meta) && 0 <= store.meta.State && store.meta.State <= 2
+//@   ensures [fail-unchanged] result != nil ==> storeAt(c, store.meta.Id) == old(storeAt(c, store.meta.Id)) && in(c.core.Stores.stores, store.meta.Id) == old(in(c.core.Stores.stores, store.meta.Id))
+//@   ensures [published] result == nil ==> storeAt(c, store.meta.Id) == store && in(c.core.Stores.stores, store.meta.Id)
+//@   ensures [others] forall k uint64 :: k != store.meta.Id ==> c.core.Stores.stores[k] == old(c.core.Stores.stores[k]) && in(c.core.Stores.stores, k) == old(in(c.core.Stores.stores, k))
+//@   ensures [saved-first] result == nil && c.storage != nil ==> last("kvSave") > old(evclock[0])
+//@   ensures [failed-not-saved-twice] c.storage == nil ==> result == nil
+//@   modifies c.core.Stores.stores[*], ghost kvhas, ghost kvval
+
+// Up -> Offline (recording physical destruction); tombstone and destroyed stores are refused; failure changes nothing.
+//@ func (*RaftCluster).RemoveStore
+//@   props C14
+//@   ensures [wf] wfCluster(c)
+//@   requires wfCluster(c)
+//@   ensures [fail-unchanged] result != nil ==> storeAt(c, storeID) == old(storeAt(c, storeID))
+//@   ensures [transition] storeAt(c, storeID) != old(storeAt(c, storeID)) ==> old(storeAt(c, storeID)) != nil && old(sstate(storeAt(c, storeID))) != 2 && !old(destroyed(storeAt(c, storeID))) && sstate(storeAt(c, storeID)) == 1 && destroyed(storeAt(c, storeID)) == physicallyDestroyed && storeAt(c, storeID).meta.Id == storeID && storeAt(c, storeID).meta.Address == old(storeAt(c, storeID).meta.Address)
+//@   ensures [tombstone-refused] old(storeAt(c, storeID)) != nil && old(sstate(storeAt(c, storeID))) == 2 ==> result != nil
+//@   ensures [others] forall k uint64 :: k != storeID ==> c.core.Stores.stores[k] == old(c.core.Stores.stores[k])
+//@   modifies c.core.Stores.stores[*], ghost kvhas, ghost kvval
+
+// Offline -> Up unless physically destroyed; tombstone refused.
+//@ func (*RaftCluster).UpStore
+//@   props C14
+//@   ensures [wf] wfCluster(c)
+//@   requires wfCluster(c)
+//@   ensures [fail-unchanged] result != nil ==> storeAt(c, storeID) == old(storeAt(c, storeID))
+//@   ensures [transition] storeAt(c, storeID) != old(storeAt(c, storeID)) ==> old(storeAt(c, storeID)) != nil && old(sstate(storeAt(c, storeID))) == 1 && !old(destroyed(storeAt(c, storeID))) && sstate(storeAt(c, storeID)) == 0 && !destroyed(storeAt(c, storeID)) && storeAt(c, storeID).meta.Id == storeID && storeAt(c, storeID).meta.Address == old(storeAt(c, storeID).meta.Address)
+//@   ensures [tombstone-refused] old(storeAt(c, storeID)) != nil && (old(sstate(storeAt(c, storeID))) == 2 || old(destroyed(storeAt(c, storeID)))) ==> result != nil
+//@   ensures [others] forall k uint64 :: k != storeID ==> c.core.Stores.stores[k] == old(c.core.Stores.stores[k])
+//@   modifies c.core.Stores.stores[*], ghost kvhas, ghost kvval
+
+// Offline -> Tombstone only; an up store is never buried; the destroyed flag survives.
+//@ func (*RaftCluster).buryStore
+//@   props C14
+//@   ensures [wf] wfCluster(c)
+//@   requires wfCluster(c)
+//@   ensures [fail-unchanged] result != nil ==> storeAt(c, storeID) == old(storeAt(c, storeID))
+//@   ensures [transition] storeAt(c, storeID) != old(storeAt(c, storeID)) ==> old(storeAt(c, storeID)) != nil && old(sstate(storeAt(c, storeID))) == 1 && sstate(storeAt(c, storeID)) == 2 && destroyed(storeAt(c, storeID)) == old(destroyed(storeAt(c, storeID))) && storeAt(c, storeID).meta.Id == storeID
+//@   ensures [up-refused] old(storeAt(c, storeID)) != nil && old(sstate(storeAt(c, storeID))) == 0 ==> result != nil
+//@   ensures [others] forall k uint64 :: k != storeID ==> c.core.Stores.stores[k] == old(c.core.Stores.stores[k])
+//@   modifies c.core.Stores.stores[*], ghost kvhas, ghost kvval
+
+// checkStores buries only stores that are neither up nor tombstone and whose region-peer count, read from the
+// live region index in the same iteration, is zero.
+//@ func (*RaftCluster).checkStores
+//@   props C14
+//@   requires wfCluster(c) && optsTyped(c.opt)
+//@   at buryStore 1 assert [only-empty] lastint("GetStoreRegionCount") == 0
+//@   at buryStore 1 assert [not-up] store != nil && store.meta != nil && sstate(store) != 0 && sstate(store) != 2 && arg0 == store.meta.Id
+//@   loop 1 invariant wfCluster(c)
+//@   modifies *
+
+// putStoreImpl: id 0 refused; for a known id state and destroyed flag are preserved; no other live store
+// (neither tombstone nor physically destroyed) has the same address; failure changes nothing.
+//@ func (*RaftCluster).putStoreImpl
+//@   props C14
+//@   requires wfCluster(c) && store != nil && 0 <= store.State && store.State <= 2
+//@   ensures [wf] wfCluster(c)
+//@   ensures [id-nonzero] result == nil ==> store.Id != 0
+//@   ensures [fail-unchanged] result != nil ==> storeAt(c, store.Id) == old(storeAt(c, store.Id))
+//@   ensures [others] forall k uint64 :: k != store.Id ==> c.core.Stores.stores[k] == old(c.core.Stores.stores[k])
+//@   ensures [served] result == nil ==> storeAt(c, store.Id) != nil && storeAt(c, store.Id).meta.Id == store.Id && storeAt(c, store.Id).meta.Address == store.Address
+//@   ensures [state-preserved] result == nil && old(storeAt(c, store.Id)) != nil ==> sstate(storeAt(c, store.Id)) == old(sstate(storeAt(c, store.Id))) && destroyed(storeAt(c, store.Id)) == old(destroyed(storeAt(c, store.Id)))
+//@   ensures [addr-unique] result == nil ==> forall j :: 0 <= j && j < len(callres("GetStores", 1)) ==> old(sstate(callres("GetStores", 1)[j])) == 2 || old(destroyed(callres("GetStores", 1)[j])) || old(callres("GetStores", 1)[j].meta.Id) == store.Id || old(callres("GetStores", 1)[j].meta.Address) != store.Address
+//@   loop 1 invariant forall j :: 0 <= j && j <= rangeindex ==> sstate(callres("GetStores", 1)[j]) == 2 || destroyed(callres("GetStores", 1)[j]) || callres("GetStores", 1)[j].meta.Id == store.Id || callres("GetStores", 1)[j].meta.Address != store.Address
+//@   modifies c.core.Stores.stores[*], ghost kvhas, ghost kvval
